@@ -83,8 +83,30 @@ def _worker_init():
     _worker_ready = True
 
 
+class ExecutionTimeout(BaseException):
+    """One simulated execution exceeded its wall-clock budget: a hang in harness or library code (never exit 0)."""
+
+
+def _on_alarm(signum, frame):
+    raise ExecutionTimeout("a single simulated execution ran longer than 40 s of wall-clock time")
+
+
 def execute(prop, profile: str, source: Source, *, keep_log: bool = False, known=None):
     """Run one simulated execution; returns a plain dict."""
+    import signal
+    import threading
+    armed = threading.current_thread() is threading.main_thread()
+    if armed:
+        signal.signal(signal.SIGALRM, _on_alarm)
+        signal.setitimer(signal.ITIMER_REAL, 40.0)
+    try:
+        return _execute(prop, profile, source, keep_log=keep_log, known=known)
+    finally:
+        if armed:
+            signal.setitimer(signal.ITIMER_REAL, 0.0)
+
+
+def _execute(prop, profile: str, source: Source, *, keep_log: bool = False, known=None):
     global _runs_since_gc
     from . import seams
     from .loop import Sim
